@@ -366,7 +366,8 @@ def shard_main(argv):
 # --------------------------------------------------------------- parent
 def run_shards(pid, tier, seed, mod):
     n = mod.nshards(tier)
-    passes = len(ENV_MODES) if getattr(mod, 'ENV_FULL', False) else 1
+    # (the thorough tier is many times larger: there the round robin over the shards covers the modes)
+    passes = len(ENV_MODES) if getattr(mod, 'ENV_FULL', False) and tier == 'quick' else 1
     total = n * passes
     wdir = os.path.join(WORK, f'{pid}-{os.getpid()}')
     os.makedirs(wdir, exist_ok=True)
